@@ -220,8 +220,10 @@ def job_assign(name):
         # P3 with orbitals: nelec / spinpol are those of the orbitals
         p3(ctx, target, work, after)
         if name in ("charge", "nelec", "spinpol"):
-            # P2 reads back as assigned, core charges untouched
-            ctx.prove(f"{target}::post.reads-back-as-assigned", same(after[name], v))
+            # P2 reads back as assigned (a number; "to rounding"), core charges untouched.  The read-back is the
+            # getter of that very property on the state right after the assignment.
+            if v is not None:
+                ctx.prove(f"{target}::post.reads-back-as-assigned", same(interp.load_attr(clone(work), name), v))
             ctx.prove(f"{target}::post.core-charges-unchanged", same(after["atcorenums"], before["atcorenums"]))
             ctx.prove(f"{target}::post.not-accepted-with-orbitals", z3.Not(_notnone(obj.fields["mo"])) if name != "charge" else z3.BoolVal(True))
         if name == "atcorenums":
@@ -232,9 +234,6 @@ def job_assign(name):
                 atn = interp.resolve(clone(work).fields["atnums"])
                 want = atn.astype("float") if atn is not None else None
                 ctx.prove(f"{target}::post.cleared-core-charges-default-to-atomic-numbers", same(after["atcorenums"], want))
-            # electron count is an independent quantity: not changed by assigning core charges (when it was known)
-            if before["nelec"] is not None:
-                ctx.prove(f"{target}::post.electron-count-unchanged", same(after["nelec"], before["nelec"]))
         if name in ("atcoords", "atmasses", "atgradient", "atfrozen", "mo"):
             names = ("atcorenums",) if name == "mo" else ("atcorenums", "charge", "nelec", "spinpol")
             for k, g in same_obs(before, after, names).items():
@@ -245,7 +244,11 @@ def job_assign(name):
             isn, _ = field_terms(obj.fields["_atcorenums"])
             explicit = z3.And(z3.Not(isn), z3.Not(der))
             if v is not None:
-                ctx.prove(f"{target}::post.default-core-charges-follow-atomic-numbers", z3.Or(explicit, same(after["atcorenums"], v.astype("float"))))
+                follows = same(after["atcorenums"], v.astype("float"))
+                # (a) core charges not stored yet (never read, never set): the default follows the new atomic numbers
+                ctx.prove(f"{target}::post.default-core-charges-follow-atomic-numbers.not-read-before", z3.Or(z3.Not(isn), follows))
+                # (b) core charges stored only because a getter filled in the default (ghost flag `derived`)
+                ctx.prove(f"{target}::post.default-core-charges-follow-atomic-numbers.after-lazy-read", z3.Or(isn, z3.Not(der), follows))
         # P6 reading is idempotent
         again = observe(interp, work)
         for k, g in same_obs(after, again).items():
@@ -354,30 +357,37 @@ def job_init():
         ne, ch, sp = (_resolved(ctx, kw[k]) for k in ("nelec", "charge", "spinpol"))
         if mo is None:
             if sp is not None:
-                ctx.prove(f"{target}::post.spinpol-reads-back", same(ob["spinpol"], sp))
+                ctx.prove(f"{target}::post.spinpol-reads-back", same(interp.load_attr(clone(obj), "spinpol"), sp))
             if ne is not None and ch is None:
-                ctx.prove(f"{target}::post.nelec-reads-back", same(ob["nelec"], ne))
+                ctx.prove(f"{target}::post.nelec-reads-back", same(interp.load_attr(clone(obj), "nelec"), ne))
             if ch is not None and ne is None:
-                ctx.prove(f"{target}::post.charge-reads-back", same(ob["charge"], ch))
+                ctx.prove(f"{target}::post.charge-reads-back", same(interp.load_attr(clone(obj), "charge"), ch))
         else:
             ctx.prove(f"{target}::post.nelec-spinpol-not-accepted-with-orbitals", ne is None and sp is None)
 
     return verify(target, setup, post, max_paths=20000)
 
 
+def _literal(ctx, b):
+    """True / False when the path condition contains the literal b / Not(b); None when it was never decided."""
+    nb = z3.Not(b)
+    for c in ctx.pc:
+        if c.eq(b):
+            return True
+        if c.eq(nb):
+            return False
+    return None
+
+
 def _decided_none(ctx, v):
-    return ctx.solver.check(z3.Not(v.isnone)) == z3.unsat
+    return _literal(ctx, v.isnone) is True
 
 
 def _resolved(ctx, v):
-    """Value of an SOpt as decided on this path (None when it was None)."""
+    """Value of an SOpt as decided on this path (None when it was None or never looked at)."""
     if not isinstance(v, SOpt):
         return v
-    if ctx.solver.check(z3.Not(v.isnone)) == z3.unsat:
-        return None
-    if ctx.solver.check(v.isnone) == z3.unsat:
-        return v.val
-    return None  # never looked at: nothing to claim
+    return v.val if _literal(ctx, v.isnone) is False else None
 
 
 # ------------------------------------------------------------------------------------------------
@@ -391,7 +401,7 @@ from iodata.orbitals import MolecularOrbitals
 depth = int(sys.argv[1])
 def mo(): return MolecularOrbitals("restricted", 2, 2, occs=np.array([2.0, 1.0]))
 VALS = {
- "atnums": [None, np.array([1, 8]), np.array([6, 1, 1])],
+ "atnums": [None, np.array([1, 8]), np.array([6, 1, 1]), np.array([7, 1])],
  "atcorenums": [None, np.array([1.0, 6.0]), np.array([4.0, 1.0, 1.0]), [1.0, 1.0]],
  "charge": [None, 0.0, 1.0, -0.5],
  "nelec": [None, 9.0, 9.5],
@@ -553,7 +563,7 @@ def run(chk):
             continue
         if "assign.atcorenums::raises-frame" in o.name:
             chk.set_replay(o.name, REPLAY_FRAME)
-        elif "default-core-charges-follow-atomic-numbers" in o.name:
+        elif "default-core-charges-follow-atomic-numbers.after-lazy-read" in o.name:
             chk.set_replay(o.name, REPLAY_STALE)
     chk.samples = [o.as_dict() for o in list(chk.ledger.obligations.values())[:6]]
     chk.notes["explanation"] = "C11: representation invariant + per-operation contracts proved from an arbitrary state (all histories by induction); exceptional frame included"
